@@ -269,7 +269,7 @@ StructuralPaths == {"root", "orbiter", FW, FW \o ".protocol_id", FW \o ".attribu
 Prop_C15(S) == IsRecv(S) /\ S.hasParse =>
   /\ (S.in.mk = "PAYLOAD" /\ S.parse.ok => ParseOK(S.in) /\ PayloadValid(S.in))     \* accepted only if well-formed
   /\ (S.in.mk = "MUT" /\ S.in.aid \in StructuralPaths /\ S.parse.ok => ~MustRefuse(S.in))
-  /\ S.parse.pure                                                                   \* parsing is a function of the memo
+  /\ S.parse.pure /\ S.parse.hist                                                   \* parsing is a function of the memo alone
   /\ (S.rt.built => S.rt.parseOk /\ S.rt.equal /\ S.rt.remarshalEqual)              \* constructors round-trip
 
 (* C16 Only returning Noble-native tokens are processed, under the coin ICS-20 credits *)
